@@ -189,7 +189,7 @@ def crash_cases(draw, tier):
         if js2 is not None:
             js2.update(common)
     # bound the number of job executions (every crash point is one execution): shrink the history, never sample points
-    limit = (300 if kind == "toy" else 100) if tier == "quick" else (4000 if kind == "toy" else 1000)
+    limit = (300 if kind == "toy" else 100) if tier == "quick" else (1500 if kind == "toy" else 400)
 
     def cost():
         c = _points(js1["nsteps"], js1["dump_mps"], False)
@@ -723,7 +723,7 @@ class C14(Prop):
     known_matchers = {"F11": match_f11, "FC14a": match_mpo_lists}
 
     def budget(self, tier):
-        return dict(examples=448, shards=16) if tier == "quick" else dict(examples=12000, shards=16)
+        return dict(examples=448, shards=16) if tier == "quick" else dict(examples=4000, shards=16)
 
     def strategy(self, tier):
         return cases(tier)
